@@ -90,6 +90,12 @@ def r_spawn_fresh(e, R):
     enc = isinstance(envx, ast.Name) and any(isinstance(n, ast.For) and norm(n.iter) == f"{envn}.items()" and any(
         isinstance(x, ast.Call) and isinstance(x.func, ast.Attribute) and x.func.attr == "append" and isinstance(x.func.value, ast.Name) and x.func.value.id == envx.id
         for x in ast.walk(n)) for n in func_nodes(f))
+    # same thing as a comprehension over the merged mapping's items
+    enc = enc or (isinstance(envx, ast.Name) and any(isinstance(d, (ast.ListComp, ast.GeneratorExp)) and len(d.generators) == 1 and not d.generators[0].ifs
+                                                      and norm(d.generators[0].iter) == f"{envn}.items()"
+                                                      or (isinstance(d, ast.Call) and norm(d.func) in ("list", "tuple") and d.args and isinstance(d.args[0], (ast.ListComp, ast.GeneratorExp))
+                                                          and not d.args[0].generators[0].ifs and norm(d.args[0].generators[0].iter) == f"{envn}.items()")
+                                                      for d in e.local_defs(f, envx.id)))
     R.check(enc, "R-SPAWN-FRESH", "fork_exec: the encoded environment passed down is built from that merged mapping", f.short, norm(envx), "the exec'ed environment is "
             "not the merged one", e.loc(f, c))
     R.check(norm(args[0]) == f.params[0] and norm(args[1]).startswith(f.params[0] + "["), "R-SPAWN-FRESH", "fork_exec: executes the given command line", f.short,
